@@ -814,7 +814,7 @@ pub fn run(eng: &mut Engine) {
         PartCfg::new(
             "build",
             "flute builds (verif::new_alc_pkt) from boundary-biased random field values incl. every FTI field per scheme, payload ids over the scheme's SBN/ESI range, SCT 1970..2036; reference decodes and flute parses back; non-trivial/distinct as in [classes]",
-            tier.pick(150_000, 5_000_000),
+            tier.pick(1_000_000, 20_000_000),
         ),
         build_strategy,
         check_build,
@@ -823,7 +823,7 @@ pub fn run(eng: &mut Engine) {
         PartCfg::new(
             "foreign",
             "the reference builds: non-minimal field widths, PSI/reserved bits set, unknown extensions (HET 0..255 except the four known; HEL up to 200 words) in any order, EXT_TIME with SCT-High only / High+Low / ERT / SLC, all six FEC ids; flute must parse identical values; non-trivial = every case (none of this is reachable by flute talking to itself)",
-            tier.pick(150_000, 5_000_000),
+            tier.pick(1_000_000, 20_000_000),
         ),
         ref_strategy,
         check_ref,
@@ -832,7 +832,7 @@ pub fn run(eng: &mut Engine) {
         PartCfg::new(
             "header",
             "core::lct::push_lct_header with arbitrary PSI/CCI/TSI/TOI/codepoint/flags decoded by the reference LCT decoder; non-trivial as in [classes]",
-            tier.pick(50_000, 2_000_000),
+            tier.pick(300_000, 5_000_000),
         ),
         hdr_strategy,
         check_hdr,
